@@ -371,6 +371,15 @@ func c14GenProgram(rt *rapid.T) []prog.Op {
 	var ops []prog.Op
 	var gone []bool
 	n := rapid.IntRange(3, 28).Draw(rt, "n")
+	if rapid.IntRange(0, 3).Draw(rt, "many") == 0 {
+		// many uploads on few keys: IDs 1..12+ interleaved over the keys
+		m := rapid.IntRange(10, 16).Draw(rt, "nmany")
+		for i := 0; i < m; i++ {
+			ops = append(ops, prog.Op{K: "init", B: "bk0", Key: c14Keys[i%rapid.IntRange(1, 3).Draw(rt, "spread")]})
+			gone = append(gone, false)
+		}
+		n = rapid.IntRange(0, 6).Draw(rt, "nafter")
+	}
 	for i := 0; i < n; i++ {
 		kind := rapid.SampledFrom([]string{"init", "init", "part", "part", "part", "part", "abort", "complete"}).Draw(rt, "kind")
 		if len(gone) == 0 {
@@ -378,7 +387,7 @@ func c14GenProgram(rt *rapid.T) []prog.Op {
 		}
 		switch kind {
 		case "init":
-			if len(gone) >= 9 {
+			if len(gone) >= 16 { // more than 9: upload IDs of different widths ("9" vs "10") must sort by initiation
 				continue
 			}
 			ops = append(ops, prog.Op{K: "init", B: "bk0", Key: rapid.SampledFrom(c14Keys).Draw(rt, "k")})
@@ -425,6 +434,7 @@ func c14Run(t *testing.T, c *evid.Collector) {
 			{ini("a/b"), ini("a/c"), ini("a/b")},
 			{ini("d"), {K: "part", Ref: 0, PartN: 1, Body: b("1")}, {K: "part", Ref: 0, PartN: 2, Body: b("22")}, {K: "part", Ref: 0, PartN: 5, Body: b("55555")}, {K: "part", Ref: 0, PartN: 10000, Body: b("x")}},
 			{ini("a"), ini("d"), {K: "part", Ref: 1, PartN: 3, Body: b("333")}, {K: "part", Ref: 1, PartN: 7, Body: b("7")}, {K: "abort", Ref: 0}, ini("a/c"), ini("a/b")},
+			{ini("a"), ini("d"), ini("a/b"), ini("a"), ini("d"), ini("a/b"), ini("a"), ini("d"), ini("a/b"), ini("a"), ini("d"), ini("a/b"), ini("a"), {K: "abort", Ref: 3}},
 		}
 		for _, k := range kinds {
 			for _, h := range hs {
